@@ -9,19 +9,123 @@ HERE = os.path.dirname(os.path.dirname(os.path.abspath(__file__)))
 
 # id -> (engines, level, design_ref, text, note, technique)
 CHECKS = {
-    'C07': (['storesim'], 'exploration', 'DESIGN.md §6 C07, §4 I-store',
-            'Seeded simulation of operation histories on the real TokenStore against a Python list, with the load '
-            'factor randomised per run (2..1000) so that block split / merge / rebalance paths run; every read API is '
-            'compared with the list after every operation. Sampling, not proof.',
-            'Trusts the list reference model (40 lines) and that patching token_store._LOAD_FACTOR and its derived '
-            'module globals is equivalent to shipping another constant.',
+    'C02': (['docsim'], 'exploration', 'DESIGN.md §6 C02, §3.5 R_text',
+            'Seeded histories of token value / raw_text / comment-indent assignments (interleaved with structural edits, claims, spacing) on '
+            'parsed documents at randomised load factors; after each assignment the store\'s identity list must be unchanged, exactly that '
+            'token\'s text changed, and the printed text equal the old text with the span replaced.',
+            'R_text identity diff (60 lines) is trusted; values come from per-terminal generators (docgen.value_for).',
+            'deterministic simulation: seeded edit histories, identity diff of the token list after every step'),
+    'C03': (['docsim'], 'exploration', 'DESIGN.md §6 C03, §3.5 R_text windows',
+            'Seeded histories of every settable raw/value property and every MutableSequence/MutableMapping operation (index family incl. '
+            'negative and out-of-range, slices, extended slices, batches 0-3) discovered generically from the descriptors; after each edit the '
+            'removed/added token windows must consist of the affected child plus separators, lie inside the parent span, and every sibling must '
+            'keep identities and text.',
+            'Applies only while no unowned comment is in the store (statement: "normally parsed document").',
+            'deterministic simulation: seeded edit histories, window oracle on the identity diff'),
+    'C04': (['docsim'], 'exploration', 'DESIGN.md §6 C04',
+            'Histories of reads of every public attribute and view, ==, hash, repr, print, deep copies, handle acquisition and every claim / '
+            'unclaim / auto-claim call, interleaved with edits so caches are hot and cold; after each such call every store must print the same '
+            'text and hold the same visible tokens in the same order.',
+            'Zero-width placeholders may move (that is how claiming works).',
+            'deterministic simulation: seeded non-edit call sequences, text/visible-token equality after every step'),
+    'C05': (['docsim'], 'exploration', 'DESIGN.md §6 C05, §4 I-tree',
+            'Full operation mix with a bias towards editing through recently inserted children; after every step the generic walker (children '
+            'enumerated from field descriptors) checks store membership, span nesting/order, first/last token coincidence, leaf uniqueness and that '
+            'every significant token is a leaf, on the document and on every popped / copied / constructed node (self-contained when it enters the pool).',
+            'Walker trusts the declared field descriptors; unknown RawTreeModel subclasses are a harness error.',
+            'deterministic simulation: seeded edit histories, structural invariant I-tree after every step'),
+    'C06': (['docsim'], 'exploration', 'DESIGN.md §6 C06',
+            'Syntax-preserving operation mix only (no raw_text/spacing/indent overrides, in-domain values, donors with fitting indent); after every '
+            'edit the printed document is re-parsed by the real parser and a structural projection (classes, slots, order, leaf text and value; '
+            'comment ownership, zero-width marks, inline-comment trailing blanks excluded) must equal that of the in-memory model.',
+            'The documented custom "x" 1 -2 ambiguity is waived when present in the model; KF2 (number before ",<digit>") is a listed finding.',
+            'deterministic simulation: seeded syntax-safe histories, re-parse + projection equality after every step'),
+    'C07': (['storesim', 'docsim'], 'exploration', 'DESIGN.md §6 C07, §4 I-store',
+            'Seeded operation histories on the real TokenStore against a Python list with the load factor randomised per run (2..1000) so that block '
+            'split / merge / rebalance paths run; every read API is compared with the list after every operation; docsim adds realistic splice '
+            'patterns on documents of up to 400 directives.',
+            'Trusts the list reference model and that patching token_store._LOAD_FACTOR and its derived globals equals shipping another constant.',
             'deterministic simulation: seeded op histories vs list reference model, load-factor knob randomised'),
-    'C08': (['storesim'], 'exploration', 'DESIGN.md §6 C08, §4 I-store',
-            'Same histories as C07 plus value/raw_text updates through real token models that add and remove line '
-            'breaks; after every operation get_position/get_index of every token is compared with the (line, column) '
-            'computed from the concatenated text.',
+    'C08': (['storesim', 'docsim', 'edsim'], 'exploration', 'DESIGN.md §6 C08, §4 I-store',
+            'Same histories as C07 plus value/raw_text updates through real token models that add and remove line breaks; after every operation '
+            'get_position/get_index of every token is compared with the (line, column) computed from the concatenated text; edsim checks the line '
+            'number in the editor\'s include-error message against the text.',
             'Positions follow the store convention (0-based line and column, a line ends at \\n).',
             'deterministic simulation: seeded op histories, positions recomputed from text after every step'),
+    'C09': (['docsim'], 'exploration', 'DESIGN.md §6 C09, §3.5 R_cost / R_txn',
+            'Value-level assignments (incl. None) on every value property discovered from the descriptors, with sequences of cost and payee/narration '
+            'assignments from every initial form; read-back, every other value property of the model unchanged (aliases and documented groups aside), '
+            'record-of-optionals reference for the cost and transaction groups incl. the two documented rejections, and survival of print + re-parse.',
+            'Cost reference covers the initial forms listed in the statement (one of number/currency/amount/compound amount plus date/label/merge).',
+            'deterministic simulation: seeded assignment histories vs record-of-optionals reference models'),
+    'C10': (['docsim'], 'exploration', 'DESIGN.md §6 C10, §4 I-views',
+            'Views are obtained before and after mutations and retained as stale handles; mutations then go through raw lists, filtered views, string '
+            'views and mapping views in seeded interleavings with the full index family; after every step every retained and every freshly obtained '
+            'view must equal the live raw list filtered/converted now, and the view the operation went through must match a Python list / first-match '
+            'ordered mapping given the same call (same exception class where a list raises).',
+            'Length-changing slice assignment on filtered views is the documented refusal, not list semantics.',
+            'deterministic simulation: aliasing-handle schedules vs Python list/dict reference'),
+    'C11': (['docsim'], 'exploration', 'DESIGN.md §6 C11, §4 I-iso',
+            'Deep copies of models at every depth in both attribution modes; at copy time equality (both ways), printed text, token disjointness, '
+            'tree shape and I-tree of the copy; afterwards edit histories on either side with the invariant that a store the operation did not '
+            'address is identical before and after.',
+            'none beyond the shared machinery',
+            'deterministic simulation: seeded copy-then-edit histories with store isolation invariant'),
+    'C12': (['toksim'], 'exploration', 'DESIGN.md §6 C12',
+            'Per token class a history of value / raw_text / indent assignments starting from from_value or from_raw_text, free-standing or attached in '
+            'a store; after every step the raw text is re-lexed by the real lexer (one token, same class, same value), from_raw_text keeps it verbatim '
+            'and agrees on the value, and an attached token keeps the store caches right.',
+            'Domains: any Unicode for strings; comment lines without CR/LF inside; inline comments without leading blank (the parser strips them by '
+            'design); dates year 1..9999; non-negative finite decimals. INDENT cannot be lexed in isolation (look-ahead) and is checked for value/raw agreement only.',
+            'deterministic simulation: seeded assignment histories re-lexed by the real lexer after every step'),
+    'C13': (['exprsim'], 'exploration', 'DESIGN.md §6 C13',
+            'Chains of + - * / and unary operators in plain, reflected and in-place form with int, Decimal, free and document-attached operands; value '
+            'against Decimal arithmetic on the operand values taken before the call, printed text evaluated by an independent recursive-descent '
+            'evaluator and re-parsed, operands and owning documents unchanged for non-in-place forms, in-place on an attached expression rewrites '
+            'exactly that span.',
+            'Zero divisors are not generated; Decimal default context.',
+            'deterministic simulation: seeded operator chains vs independent evaluator'),
+    'C14': (['docsim'], 'exploration', 'DESIGN.md §6 C14, §4 I-own, R_attr',
+            'Comment-dense layouts; at parse time: no unowned comment, same attribution by parse and by a later auto_claim_comments(), idempotence, and '
+            'the documented rules evaluated independently on line geometry (R_attr); then sequences of claim / unclaim / subset claim / auto-claim '
+            'interleaved with edits with the ownership invariant (<= 1 owner, claimed flag says which) after every step and unclaim+claim restoring '
+            'the attribution.',
+            'KF1 (comment after the last meta item of a posting-less transaction) is a listed finding.',
+            'deterministic simulation: seeded claim/unclaim histories with ownership invariant and rule reference'),
+    'C16': (['edsim'], 'fault_enumeration', 'DESIGN.md §6 C16, §5',
+            'Editor over a real directory tree on tmpfs with every Python-level I/O call interposed: seeded include graphs (literal, ./, d/.., absolute, '
+            'globs, **, cycles, diamonds, hidden files), LF/CRLF/mixed contents, five path spellings x str/Path x cwd, glob results permuted; scripted '
+            'body (edits, reads, pop, add, round-trip no-ops) and, enumerated for every k, a raise before step k. Oracle: visited set = reference '
+            'closure, read once, edited files hold exactly the shadow session\'s print (raw bytes, no newline translation), unedited files never '
+            'opened for writing, popped deleted, added created, nothing else touched; a raising body leaves everything byte-identical.',
+            'OSError / torn writes are not injected: the statement says nothing about a half-failed write phase. Interposer sees Python-level calls only.',
+            'deterministic simulation with fault enumeration: interposed file system, raise injected at every body step'),
+    'C17': (['docsim'], 'exploration', 'DESIGN.md §6 C17',
+            'spacing_before/after and raw_spacing_* read and written on every model and token that is not the whole document, both sides, strings over '
+            '{space, tab, LF, CRLF}, interleaved with claims and edits; read: contiguous Whitespace/Newline run separated from the model only by '
+            'zero-width tokens and not cut short before further spacing; write: only Whitespace/Newline tokens appear/disappear, non-blank text and '
+            'order unchanged, length changes by the difference, non-empty assignments read back.',
+            'Read oracle is conservative where the documentation is silent.',
+            'deterministic simulation: seeded spacing read/write histories'),
+    'C18': (['docsim'], 'exploration', 'DESIGN.md §6 C18',
+            'meta[k] = v for new keys, comment setters and raw insertions after histories that clear meta, change indent_by and append oddly indented '
+            'items, on entries and nested postings: the created item takes the siblings\' shared indent, else parent indent + indent_by; created '
+            'comments take the owner\'s indent; raw donors keep theirs verbatim; no existing line\'s indent changes.',
+            'When siblings disagree any sibling indent is accepted (unspecified).',
+            'deterministic simulation: seeded histories shaping the rule\'s inputs, indent oracle on every creation'),
+    'C19': (['docsim', 'storesim', 'exprsim'], 'fault_enumeration', 'DESIGN.md §5, §6 C19',
+            'At seeded points of an edit history all refusals applicable to the state are enumerated: donors that live elsewhere at each batch '
+            'position of every setter/sequence/mapping route (must raise), bad indices, missing keys, size mismatches, unfindable comments, illegal '
+            'cost combinations, unrepresentable raw text, attached arithmetic operands; every call that raises must leave every store, every tree '
+            'fingerprint (incl. claimed flags) and all invariants exactly as before, for the target and the donor homes.',
+            'Exceptions injected inside the library and type-invalid arguments are out of scope (no property promises anything about them).',
+            'deterministic simulation with fault enumeration: refusal catalogue enumerated at seeded history points, no-op oracle'),
+    'C20': (['docsim'], 'exploration', 'DESIGN.md §6 C20',
+            'Before every operation a deep copy S of the document is kept; afterwards root == S must hold exactly when printed text and structural '
+            'fingerprint are equal, in both directions; copies equal their originals; states with re-owned comments and moved placeholders are '
+            'reached by histories.',
+            'Pairs differing only in indent_by are not judged.',
+            'deterministic simulation: seeded histories producing systematically perturbed model pairs'),
 }
 
 NOT_BUILT = 'check not built yet in this session (see DESIGN.md for the planned engine)'
